@@ -89,7 +89,7 @@ def real_data(N=24):  # noqa: N803
     return toy_model([0.3, 0.2], N, 12345)
 
 
-def build(cfg, folder=None):
+def build(cfg, folder=None, model=None):
     from black_it.calibrator import Calibrator
 
     samplers = [make_builtin(nm, bs, SMALL_OPTS.get(nm), cseed) for (nm, bs, cseed) in cfg["lineup"]]
@@ -103,7 +103,7 @@ def build(cfg, folder=None):
                                       MABCalibrationEnv(len(samplers)))
     else:
         kw["samplers"] = samplers
-    return Calibrator(loss_function=make_loss(cfg["loss"]), real_data=real_data(cfg.get("N", 24)), model=toy_model,
+    return Calibrator(loss_function=make_loss(cfg["loss"]), real_data=real_data(cfg.get("N", 24)), model=model or toy_model,
                       parameters_bounds=[[0.0] * d, [1.0] * d], parameters_precision=[cfg.get("prec", 0.01)] * d,
                       ensemble_size=cfg["ensemble"], verbose=cfg.get("verbose", False), saving_folder=folder,
                       random_state=cfg["seed"], n_jobs=cfg.get("n_jobs", 1), **kw)
@@ -128,12 +128,15 @@ def run_segments(cfg, segments, use_folder=None):
     try:
         with contextlib.redirect_stdout(io.StringIO()), warnings.catch_warnings():
             warnings.simplefilter("ignore")
-            cal = build(cfg, folder)
+            explicit = bool(cfg.get("explicit_checkpoints"))       # no saving folder: a checkpoint is written only at a 'restore' boundary
+            cal = build(cfg, None if explicit else folder)
             for n, boundary in segments:
                 rets.append(cal.calibrate(n))
                 if boundary == "restore":
                     from vp.deep import deep, diff
                     saved = deep(cal)
+                    if explicit:
+                        cal.create_checkpoint(folder)
                     cal = Calibrator.restore_from_checkpoint(folder, model=toy_model)
                     dd = diff(saved, deep(cal))
                     if dd:
